@@ -114,9 +114,9 @@ def run_property(prop_id, tier='quick', seed=0, jobs=None):
         print(f'ENGINE-ERROR property={prop_id} the verification world cannot be built from the current tree: {type(ex).__name__}: {ex}')
         print(f'{prop_id} {tier}: nothing decided')
         return 3
-    # one task per worker process: every task starts from the parent's memory image (world already built), so what z3 sees for a given
-    # function does not depend on which other functions the same worker happened to verify before
-    with ctx.Pool(jobs, initializer=_init, maxtasksperchild=1) as pool:
+    # (a pool that replaces its workers after every task - tried for reproducibility - forks from a helper thread while this thread runs
+    #  the bounded sweeps; one such run hung for 15 minutes in a fresh sandbox, so workers are long-lived again)
+    with ctx.Pool(jobs, initializer=_init) as pool:
         # 1. function contracts
         from props import _common as _pc
         shards = dict(getattr(_pc, 'COMMON_SHARDS', {}), **getattr(mod, 'SHARDS', {}))     # a property may override the common split
